@@ -75,11 +75,14 @@ impl EightChar {
     let mut offset: isize = (self.month.get_earth_branch().next(-1).get_index() + self.hour.get_earth_branch().next(-1).get_index()) as isize;
     offset = if offset >= 14 { 26 } else { 14 } - offset;
     offset -= 1;
+    // 丑月丑时、丑月寅时、寅月丑时算出12、13，需归到0..11，否则天干按五虎遁多推了12位
+    offset %= 12;
     SixtyCycle::from_name(format!("{}{}", HeavenStem::from_index(((self.year.get_heaven_stem().get_index() as isize) + 1) * 2 + offset).get_name(), EarthBranch::from_index(2 + offset).get_name()).as_str())
   }
 
   pub fn get_body_sign(&self) -> SixtyCycle {
-    let offset: isize = (self.month.get_earth_branch().get_index() as isize + self.hour.get_earth_branch().get_index() as isize - 1) % 12;
+    // +11而不是-1：子月子时不能得到负数（Rust的%对负数取余为负）
+    let offset: isize = (self.month.get_earth_branch().get_index() as isize + self.hour.get_earth_branch().get_index() as isize + 11) % 12;
     SixtyCycle::from_name(format!("{}{}", HeavenStem::from_index(((self.year.get_heaven_stem().get_index() as isize) + 1) * 2 + offset).get_name(), EarthBranch::from_index(2 + offset).get_name()).as_str())
   }
 
